@@ -212,7 +212,7 @@ int main(int argc, char** argv) {
     R.sample_every = 5000;
     const bool T = R.thorough();
     part_norm(T ? std::vector<unsigned>{8, 9, 16, 17, 24} : std::vector<unsigned>{8, 9});
-    part_gauss(T ? std::vector<unsigned>{32, 33, 48, 64, 65, 96} : std::vector<unsigned>{32, 48}, T);
-    part_copy(T ? std::vector<unsigned>{8, 9, 16, 17, 32, 33} : std::vector<unsigned>{8, 16});
+    part_gauss(T ? std::vector<unsigned>{32, 33, 48, 64, 65, 96} : std::vector<unsigned>{32, 33, 48}, T);
+    part_copy(T ? std::vector<unsigned>{8, 9, 16, 17, 32, 33} : std::vector<unsigned>{8, 9, 16});
     return R.finish();
 }
